@@ -547,6 +547,15 @@ def run_family(base_spec, models, table, rec, extra_cols=None):
         is_log = model in LOG_OF
         bad = check_values(spec, table, vals, refs[mu], rec, log_model=is_log)
         record_cases(spec, table, vals, bad, rec)
+        if not rec.samples and not is_log:
+            # one written-out case: the first non-trivial group of this evaluation
+            for g, (ui, pi, s_) in enumerate(table.groups):
+                if nontrivial_group(spec, table.pats[pi]) or spec['kind'] == 'logit':
+                    rec.sample(dict(model=model, alts=table.alts, alone=spec.get('alone'), nests=spec.get('nests'),
+                                    mus=spec.get('mus'), mu=mu, forms=spec.get('forms', 'data columns'),
+                                    utilities=table.us[ui], availability=table.pats[pi],
+                                    engine=[float(v) for v in vals[g]], reference=[float(v) for v in refs[mu][g]]))
+                    break
         results[(model, mu)] = (spec, vals)
     for (model, mu), (spec, vals) in results.items():
         if model in LOG_OF and (LOG_OF[model], mu) in results:
